@@ -372,6 +372,14 @@ struct Slot {
 }
 
 static CHILD_COUNTER: AtomicU64 = AtomicU64::new(0);
+
+struct ChildOut {
+    code: Option<i32>,
+}
+
+fn child_timeout_s() -> u64 {
+    std::env::var("VERIF_CHILD_TIMEOUT_S").ok().and_then(|v| v.parse().ok()).unwrap_or(240)
+}
 pub const NONDET_CLASS: &str = "differs-between-fresh-processes";
 
 /// run one scenario in a fresh child process of this binary
@@ -381,17 +389,55 @@ pub fn execute_isolated(check: &dyn Check, verif_dir: &str, scenario: &J) -> Res
     let path = format!("{}/scn-{}-{}.json", dir, std::process::id(), CHILD_COUNTER.fetch_add(1, Ordering::SeqCst));
     std::fs::write(&path, scenario.to_string()).map_err(|e| format!("write scenario: {}", e))?;
     let exe = std::env::current_exe().map_err(|e| e.to_string())?;
-    let outp = std::process::Command::new(exe).arg(check.id()).arg("--exec-scenario").arg(&path).output();
+    let out_path = format!("{}.out", path);
+    let out_file = std::fs::File::create(&out_path).map_err(|e| format!("child output file: {}", e))?;
+    let mut child = std::process::Command::new(exe)
+        .arg(check.id())
+        .arg("--exec-scenario")
+        .arg(&path)
+        .stdin(std::process::Stdio::null())
+        .stdout(out_file)
+        .stderr(std::process::Stdio::null())
+        .spawn()
+        .map_err(|e| format!("spawn child: {}", e))?;
+    // bounded wait: a scenario that does not finish (e.g. code under test blocking on a real lock
+    // while a simulated thread is parked) decides nothing; it is killed and counted, never waited for
+    let limit = std::time::Duration::from_secs(child_timeout_s());
+    let t0 = Instant::now();
+    let status = loop {
+        match child.try_wait() {
+            Ok(Some(st)) => break Some(st),
+            Ok(None) => {
+                if t0.elapsed() > limit {
+                    let _ = child.kill();
+                    let _ = child.wait();
+                    break None;
+                }
+                std::thread::sleep(std::time::Duration::from_millis(20));
+            }
+            Err(e) => return Err(format!("wait child: {}", e)),
+        }
+    };
     let _ = std::fs::remove_file(&path);
-    let outp = outp.map_err(|e| format!("spawn child: {}", e))?;
-    let text = String::from_utf8_lossy(&outp.stdout).to_string();
-    let line = text.lines().rev().find(|l| l.starts_with("RUNOUT ")).ok_or_else(|| {
-        format!(
-            "child produced no result (exit {:?}): {}",
-            outp.status.code(),
-            String::from_utf8_lossy(&outp.stderr).lines().rev().take(3).collect::<Vec<_>>().join(" | ")
-        )
-    })?;
+    let text = std::fs::read_to_string(&out_path).unwrap_or_default();
+    let _ = std::fs::remove_file(&out_path);
+    let status = match status {
+        Some(s) => s,
+        None => {
+            let mut out = RunOut::default();
+            out.count("probe.scenarios_killed_after_timeout(inconclusive)", 1);
+            let mut h = crate::prng::Hasher64::new();
+            h.bytes(scenario.to_string().as_bytes());
+            out.hash = h.finish();
+            return Ok(out);
+        }
+    };
+    let outp = ChildOut { code: status.code() };
+    let line = text
+        .lines()
+        .rev()
+        .find(|l| l.starts_with("RUNOUT "))
+        .ok_or_else(|| format!("child produced no result (exit {:?})", outp.code))?;
     let j = json::parse(&line["RUNOUT ".len()..])?;
     if let Some(e) = j.get("error").and_then(|x| x.as_str()) {
         return Err(e.to_string());
@@ -462,6 +508,33 @@ pub fn run_check(check: &dyn Check, opts: &Options) -> i32 {
 
     let next = AtomicU64::new(0);
     let results: Mutex<BTreeMap<u64, Slot>> = Mutex::new(BTreeMap::new());
+    // watchdog: a scenario that never returns (code under test not terminating) must not hang the
+    // check.  If no scenario completes for 10 minutes the process ends with a harness error.
+    let progress = std::sync::Arc::new(AtomicU64::new(0));
+    let done_flag = std::sync::Arc::new(AtomicU64::new(0));
+    {
+        let progress = progress.clone();
+        let done_flag = done_flag.clone();
+        let id = id.to_string();
+        std::thread::spawn(move || {
+            let mut last = 0u64;
+            let mut since = Instant::now();
+            loop {
+                std::thread::sleep(std::time::Duration::from_secs(2));
+                if done_flag.load(Ordering::SeqCst) != 0 {
+                    return;
+                }
+                let p = progress.load(Ordering::SeqCst);
+                if p != last {
+                    last = p;
+                    since = Instant::now();
+                } else if since.elapsed().as_secs() > 600 {
+                    eprintln!("HARNESS-ERROR property={}: no scenario finished for 600 s (a scenario does not terminate); giving up", id);
+                    std::process::exit(2);
+                }
+            }
+        });
+    }
     let workers = std::env::var("VERIF_WORKERS").ok().and_then(|w| w.parse::<usize>().ok()).unwrap_or_else(|| check.workers()).max(1);
     std::thread::scope(|s| {
         for _ in 0..workers {
@@ -498,10 +571,12 @@ pub fn run_check(check: &dyn Check, opts: &Options) -> i32 {
                     }
                 }
                 drop(scenario);
+                progress.fetch_add(1, Ordering::SeqCst);
                 results.lock().unwrap().insert(i, Slot { out });
             });
         }
     });
+    done_flag.store(1, Ordering::SeqCst);
     let results = results.into_inner().unwrap();
     let scenario_of = |i: u64| -> J {
         let mut rng = Rng::new(derive_seed(opts.seed, id, i));
